@@ -216,6 +216,14 @@ func runC06(p *P, r *R) {
 	// ---- R06.5 socket-fallback payload must be copied out of the connection's read buffer
 	noEscapeOfEventBuffer(p, r, "R06.5")
 
+	// ---- R06.6 the bytes survive the trip: the writer stamps size/start into the slice headers and the reader rebuilds
+	// its cursors from the same words (shared with C03); the receive-side re-linker and done() keep every slice of
+	// the chain (shared with C09)
+	borrow(p, r, "C03", runC03, map[string]string{"R03.1": "R06.6"}, func(o Ob) bool {
+		return constructHas(o, "(*bufferSlice).update", "newBufferSlice", "(*bufferSlice).reset")
+	})
+	borrow(p, r, "C09", runC09, map[string]string{"R09.5": "R06.6", "R09.6": "R06.6"}, nil)
+
 	// ---- R06.4 cursor writers
 	cursorOwners := map[string]bool{
 		"(*bufferSlice).read": true, "(*bufferSlice).peek": true, "(*bufferSlice).skip": true, "(*bufferSlice).reserve": true, "(*bufferSlice).append": true,
